@@ -74,6 +74,26 @@ func genC10(seed uint64, tier string) *Plan {
 			p.Knobs[k("p4d")] = []float64{0.5, 0.9, 0.99}[r.intn(3)]
 		}
 	}
+	if r.chance(0.12) {
+		// a component switched off by a zero weight, its other parameters left at values that only
+		// make sense for an enabled component (the library validates them only when the weight is
+		// non-zero): decay above one, huge threshold
+		t := r.intn(nt)
+		k := func(n string) string { return fmt.Sprintf("t%d_%s", t, n) }
+		switch r.intn(5) {
+		case 0:
+			p.Knobs[k("p2w")], p.Knobs[k("p2d")] = 0, 2
+		case 1:
+			p.Knobs[k("p3w")], p.Knobs[k("p3d")] = 0, 2
+		case 2:
+			p.Knobs[k("p3w")], p.Knobs[k("p3thr")] = 0, 1e300 // read as +Inf
+		case 3:
+			p.Knobs[k("p3bw")], p.Knobs[k("p3bd")] = 0, 2
+		default:
+			p.Knobs["bp_weight"], p.Knobs["bp_decay"] = 0, 2
+		}
+		p.Knobs["wild_disabled_component"] = 1
+	}
 	np := p.ki("npeers", 1)
 	add := func(op string, a ...int64) { p.Items = append(p.Items, Item{Op: op, A: a}) }
 	for i := 0; i < np; i++ {
@@ -82,6 +102,23 @@ func genC10(seed uint64, tier string) *Plan {
 	n := r.rng(15, 60)
 	if tier == "thorough" {
 		n = r.rng(15, 150)
+	}
+	if np >= 2 && r.chance(0.12) {
+		// a peer with two connections from different addresses, one of them shared with another
+		// peer, loses the shared one: address bookkeeping across two refreshes
+		p.Knobs["ip_threshold"] = 1
+		if p.Knobs["ip_weight"] == 0 {
+			p.Knobs["ip_weight"] = -1
+		}
+		add("disconnect", 0)
+		add("disconnect", 1)
+		add("connect", 0, 2)
+		add("conn2", 0, 0)
+		add("adv", 61000)
+		add("connect", 1, 0)
+		add("adv", int64(r.rng(1, 2000)))
+		add("disc2", 0, int64(r.intn(2)))
+		add("adv", 61000)
 	}
 	for k := 0; k < n; k++ {
 		i := int64(r.intn(np))
@@ -112,8 +149,16 @@ func genC10(seed uint64, tier string) *Plan {
 			add("recap", t, int64(r.intn(3)))
 		case x < 94:
 			add("appscore", i, int64(r.rng(-5, 5)))
-		default:
+		case x < 96:
 			add("rejectnow", i, t, int64(r.intn(5)))
+		case x < 97:
+			add("rejectdup", i, int64(r.intn(8)), int64(r.intn(3))) // signature-type rejection of a known message ID
+		case x < 98:
+			add("redeliver", i, int64(r.intn(8))) // a finished message ID comes through the pipeline again
+		case x < 99:
+			add("conn2", i, int64(r.intn(4))) // a second connection of the peer, from another address
+		default:
+			add("disc2", i, int64(r.intn(2))) // one of its connections closes
 		}
 	}
 	return p
@@ -216,15 +261,19 @@ func (m *refModel) score(i int, skip string) float64 {
 			}
 			s += p1 * tp.TimeInMeshWeight
 		}
-		s += ts.fmd * tp.FirstMessageDeliveriesWeight
-		if skip != "p3" && ts.active && ts.mmd < tp.MeshMessageDeliveriesThreshold {
+		// (a component whose weight is zero is switched off: it contributes nothing, whatever its
+		// counter holds)
+		if tp.FirstMessageDeliveriesWeight != 0 {
+			s += ts.fmd * tp.FirstMessageDeliveriesWeight
+		}
+		if skip != "p3" && tp.MeshMessageDeliveriesWeight != 0 && ts.active && ts.mmd < tp.MeshMessageDeliveriesThreshold {
 			d := tp.MeshMessageDeliveriesThreshold - ts.mmd
 			s += d * d * tp.MeshMessageDeliveriesWeight
 		}
-		if skip != "p3b" {
+		if skip != "p3b" && tp.MeshFailurePenaltyWeight != 0 {
 			s += ts.mfp * tp.MeshFailurePenaltyWeight
 		}
-		if skip != "p4" {
+		if skip != "p4" && tp.InvalidMessageDeliveriesWeight != 0 {
 			s += ts.imd * ts.imd * tp.InvalidMessageDeliveriesWeight
 		}
 		total += s * tp.TopicWeight
@@ -236,7 +285,7 @@ func (m *refModel) score(i int, skip string) float64 {
 	if skip != "p6" {
 		total += m.ipFactor(i) * m.P.IPColocationFactorWeight
 	}
-	if skip != "p7" && p.bp > m.P.BehaviourPenaltyThreshold {
+	if skip != "p7" && m.P.BehaviourPenaltyWeight != 0 && p.bp > m.P.BehaviourPenaltyThreshold {
 		e := p.bp - m.P.BehaviourPenaltyThreshold
 		total += e * e * m.P.BehaviourPenaltyWeight
 	}
@@ -349,6 +398,14 @@ func (m *refModel) invalid(i int, t string) {
 	}
 }
 
+// infKnob: plans are JSON, which has no infinity; 1e300 and above stands for +Inf.
+func infKnob(v float64) float64 {
+	if v >= 1e300 {
+		return math.Inf(1)
+	}
+	return v
+}
+
 // ---- world -------------------------------------------------------------------------------------
 
 func c10Params(p *Plan, app func(peer.ID) float64) (*PeerScoreParams, []string) {
@@ -388,7 +445,7 @@ func c10Params(p *Plan, app func(peer.ID) float64) (*PeerScoreParams, []string) 
 			MeshMessageDeliveriesWeight:     k("p3w"),
 			MeshMessageDeliveriesDecay:      k("p3d"),
 			MeshMessageDeliveriesCap:        k("p3cap"),
-			MeshMessageDeliveriesThreshold:  k("p3thr"),
+			MeshMessageDeliveriesThreshold:  infKnob(k("p3thr")),
 			MeshMessageDeliveriesWindow:     time.Duration(k("p3win_ms")) * time.Millisecond,
 			MeshMessageDeliveriesActivation: time.Duration(k("p3act_ms")) * time.Millisecond,
 			MeshFailurePenaltyWeight:        k("p3bw"),
@@ -459,11 +516,31 @@ func runC10(s *sim) {
 	nChecks := 0
 	ticks := 0
 	// run the clock to `target`, applying the model's decay at every decay tick of the real ticker
+	cips := map[int][]string{} // addresses of the live connections of each peer, in connection order
+	applyRefresh := func() {
+		// the scorer re-reads every connected peer's addresses once a minute
+		for i := 0; i < np; i++ {
+			if mp := m.peers[i]; mp != nil && mp.connected {
+				m.setIPs(i, append([]string(nil), cips[i]...))
+			}
+		}
+	}
 	advance := func(d time.Duration) {
 		target := s.now() + d
 		for {
 			k := (s.now()-created)/sp.DecayInterval + 1
 			next := created + k*sp.DecayInterval
+			kr := (s.now()-created)/time.Minute + 1
+			nextR := created + kr*time.Minute
+			if nextR <= next && nextR <= target {
+				s.run(nextR + 1)
+				s.settle()
+				applyRefresh()
+				s.probe("ip_refresh_tick")
+				if nextR < next {
+					continue
+				}
+			}
 			if next > target {
 				break
 			}
@@ -580,9 +657,10 @@ func runC10(s *sim) {
 				continue
 			}
 			ip := ipPool[int(it.a(1))%len(ipPool)]
-			hosts[i].addr = maddr(ip)
 			if len(h.conns[ids[i]]) == 0 {
+				hosts[i].addr = maddr(ip)
 				s.connect(hosts[i], h, false)
+				cips[i] = []string{ip}
 			}
 			ps.OnNewOutboundStream(ids[i], GossipSubID_v11)
 			if m.peers[i] == nil {
@@ -591,7 +669,7 @@ func runC10(s *sim) {
 				s.probe("reconnect_inside_retention")
 			}
 			m.peers[i].connected = true
-			m.setIPs(i, []string{ip})
+			m.setIPs(i, append([]string(nil), cips[i]...))
 			if len(m.ipSet[ip]) > sp.IPColocationFactorThreshold {
 				s.probe("ip_colocation_surplus")
 			}
@@ -601,6 +679,7 @@ func runC10(s *sim) {
 				continue
 			}
 			s.disconnect(hosts[i], h)
+			cips[i] = nil
 			s.run(s.now())
 			// retention rule: positive scores are dropped at once, non-positive retained
 			sc := m.score(i, "")
@@ -712,6 +791,69 @@ func runC10(s *sim) {
 			case 2:
 				m.invalid(i, r.topic)
 			}
+		case "rejectdup":
+			mp := m.peers[i]
+			if mp == nil || !mp.connected || len(msgs) == 0 {
+				continue
+			}
+			r := msgs[len(msgs)-1-int(it.a(1))%mini(len(msgs), 8)]
+			reason := []string{RejectInvalidSignature, RejectMissingSignature, RejectSelfOrigin}[int(it.a(2))%3]
+			// such copies are not tracked per message: the sender is charged, the record of the ID
+			// (pending, delivered or rejected) is not touched
+			ps.RejectMessage(&Message{Message: r.m.Message, ReceivedFrom: ids[i]}, reason)
+			m.invalid(i, r.topic)
+			s.probe("signature_reject_of_known_id")
+		case "redeliver":
+			mp := m.peers[i]
+			if mp == nil || !mp.connected {
+				continue
+			}
+			var fin []*msgRec
+			for _, r := range msgs {
+				if r.done {
+					fin = append(fin, r)
+				}
+			}
+			if len(fin) == 0 {
+				continue
+			}
+			r := fin[len(fin)-1-int(it.a(1))%mini(len(fin), 8)]
+			// the ID left the seen cache and arrives again while the scorer still holds its record:
+			// the pipeline treats it as a new message, its forwarder is the first deliverer
+			dm := &Message{Message: r.m.Message, ReceivedFrom: ids[i]}
+			ps.ValidateMessage(dm)
+			ps.DeliverMessage(dm)
+			m.firstDelivery(i, r.topic)
+			s.probe("delivery_of_id_with_final_record")
+		case "conn2":
+			mp := m.peers[i]
+			if mp == nil || !mp.connected || len(cips[i]) != 1 {
+				continue
+			}
+			ip := []string{"10.9.0.7", "10.9.0.8", "10.9.1.5", "10.9.0.9"}[int(it.a(1))%4]
+			if ip == cips[i][0] {
+				continue // the same address twice is another question (see DESIGN.md, observations)
+			}
+			hosts[i].addr = maddr(ip)
+			s.connect(hosts[i], h, false)
+			cips[i] = append(cips[i], ip)
+			s.probe("second_connection_from_other_address")
+		case "disc2":
+			mp := m.peers[i]
+			if mp == nil || !mp.connected || len(cips[i]) != 2 {
+				continue
+			}
+			k := int(it.a(1)) % 2
+			h.mu.Lock()
+			cs := append([]*simConn(nil), h.conns[ids[i]]...)
+			h.mu.Unlock()
+			if len(cs) != 2 {
+				continue
+			}
+			s.closeConn(cs[k])
+			s.run(s.now())
+			cips[i] = append([]string(nil), cips[i][1-k])
+			s.probe("one_of_two_connections_closed")
 		case "penalty":
 			if mp := m.peers[i]; mp != nil {
 				ps.AddPenalty(ids[i], int(it.a(1)))
